@@ -986,6 +986,8 @@ def annotated_loop(ex, node, spec, it=None):
 
 
 class LoopTemp(Missing):
+    is_loop_temp = True      # reading it is an error of the loop contract (interp.load_name), never a value
+
     def __init__(self, name, tag):
         Missing.__init__(self, 'loop-local %r of %s read before assignment in this iteration '
                                '(declare it in havoc)' % (name, tag))
